@@ -71,7 +71,7 @@ def mk_opts(e, suffix=''):
 @register
 class Filter(Contract):
     path, qualname, props = VPP, 'VariantPeptidePool.filter', ('C19',)
-    assumptions = ('assumed: VariantPeptideInfo.from_variant_peptide_minimal(peptide) parses the header into entries with get_transcript_ids/is_fusion/is_circ_rna/is_splice_altering (header parser: bounded round trip in C18)',
+    assumptions = ('VariantPeptideInfo.from_variant_peptide_minimal(peptide) is used through its result (one entry per header entry: contract in c19c; the questions asked of an entry: contracts in c19b; the header parser: contract and bounded round trip in C18)',
                    'assumed: peptide.find_all_enzymatic_cleave_sites(enzyme, exception) is the site list of C10')
 
     def setup(self, I):
